@@ -7,8 +7,9 @@ CONSTANTS
   Plan = "fixed"
   Kinds = {"good", "badauth", "wrongid", "wrongsrc", "reqcode"}
   MaxFlips = 1
+  MaxReplies = 3
   AllowCancel = TRUE
   AllowDestroy = TRUE
   PortReuse = TRUE
-INVARIANTS ICompleteOnce INoTxAfterDone ITxBound ISlots IArmed IMatch IDelivered IFailover IQuiescent IDestroyed IMemSafe IDuration
+INVARIANTS ICompleteOnce INoTxAfterDone ITxBound ISlots IArmed IMatch IDelivered IFailover IQuiescent IDestroyed IMemSafe INas IDuration
 CHECK_DEADLOCK FALSE
